@@ -359,6 +359,7 @@ func runRC(p *Plan, keep bool, mode string) *Outcome {
 			out.Stats = e.Stats
 			out.Trace = e.Trace
 			e.frozen.Store(true)
+			close(e.frozenCh)
 			simrt.Free()
 			stop()
 			for _, cl := range w.calls {
@@ -461,6 +462,7 @@ func runRC(p *Plan, keep bool, mode string) *Outcome {
 		out.Trace = e.Trace
 		// teardown
 		e.frozen.Store(true)
+		close(e.frozenCh)
 		simrt.Free()
 		stop()
 		for _, cl := range w.calls {
